@@ -471,6 +471,7 @@ type gen struct {
 	h         *History
 	withKnown bool
 	focus     bool    // sharing-focused history (see Generate)
+	bind      bool    // binding history (see Generate)
 	pShare    float64 // probability that a type / rule object of a spec already present is re-used
 	created   []bool
 	pending   map[int][]Op // setup queue per schema object
@@ -530,7 +531,7 @@ func (g *gen) plan(i int) {
 			q = append(q, Op{Code: OpAddType, Obj: i, Arg: g.instance(tr.Kind, tr.Spec, g.pShare), Name: tr.Name})
 		}
 	}
-	if len(q) > 1 && g.r.Intn(8) == 0 {
+	if len(q) > 1 && (g.r.Intn(8) == 0 || (g.bind && g.r.Intn(2) == 0)) {
 		g.r.Shuffle(len(q), func(a, b int) { q[a], q[b] = q[b], q[a] })
 	}
 	if len(q) > 0 {
@@ -710,7 +711,14 @@ func (g *gen) observeSchema(i int) {
 // Generate draws one history: up to 12 operations (object creations not
 // counted) over 1..3 root schemas, their types and rules, documents, and
 // stand-alone enum / regex objects.
-func Generate(r *rand.Rand, withKnown bool) *History {
+//
+// bind: a BINDING history (pool_bind.go): 2-3 roots of the binding family that
+// share ONE type object whose text refers to names the roots bind differently;
+// set-up mostly first (in any order of the roots and of their AddType calls),
+// then Check / Validate / Example / GetAST / UsedUserTypes on the roots in a
+// random order, so that each root is observed after any history of calls on the
+// others (whichever of them is compiled first).
+func Generate(r *rand.Rand, withKnown, bind bool) *History {
 	g := &gen{r: r, h: &History{}, withKnown: withKnown, pShare: 0.7, pending: map[int][]Op{}, added: map[int]bool{}, spent: map[int]bool{},
 		advanced: map[int]bool{}, checked: map[int]bool{}, lened: map[int]bool{}}
 	// a history draws its roots either from the base pool (constructs: rules,
@@ -733,6 +741,16 @@ func Generate(r *rand.Rand, withKnown bool) *History {
 		nRoots = 2 + r.Intn(2)
 	}
 	var rootObjs []int
+	if bind {
+		g.focus, g.bind = true, true
+		g.pShare = 0.95
+		for _, spec := range bindRootSpecs(r) {
+			i := g.newObj(KSchema, spec)
+			g.plan(i)
+			rootObjs = append(rootObjs, i)
+		}
+		nRoots = len(rootObjs)
+	}
 	for len(rootObjs) < nRoots {
 		spec := roots[r.Intn(len(roots))]
 		if len(Schemas[spec].Types)+len(Schemas[spec].Rules) == 0 && r.Intn(2) == 0 {
@@ -799,6 +817,10 @@ func Generate(r *rand.Rand, withKnown bool) *History {
 		maxOps = 9 + r.Intn(4)
 		pSetup = 0.9
 	}
+	if bind {
+		maxOps = 10 + r.Intn(3)
+		pSetup = []float64{0.95, 0.9, 0.6}[r.Intn(3)]
+	}
 	g.maxOps = maxOps
 	for g.count < maxOps {
 		if len(g.pending) > 0 && r.Float64() < pSetup {
@@ -819,7 +841,11 @@ func Generate(r *rand.Rand, withKnown bool) *History {
 			g.emitPending(cands[r.Intn(len(cands))])
 			continue
 		}
-		switch x := r.Intn(100); {
+		x := r.Intn(100)
+		if bind {
+			x = x * 7 / 10 // 79% a root, 14% a type object directly, 7% a document
+		}
+		switch {
 		case x < 55:
 			g.observeSchema(rootObjs[r.Intn(len(rootObjs))])
 		case x < 65:
